@@ -12,7 +12,7 @@ use std::path::Path;
 use std::sync::Arc;
 use tensor_chain::{
     AppendEntries, AppendEntriesResponse, Block, BlockHeader, LogEntry, MemoryTransport, Message, RaftConfig,
-    RaftNode, RaftRecoveryState, RaftState, RaftWal, RaftWalEntry, RequestVote, RequestVoteResponse, SnapshotMetadata,
+    PreVoteResponse, RaftNode, RaftRecoveryState, RaftState, RaftWal, RaftWalEntry, RequestVote, RequestVoteResponse, SnapshotMetadata,
 };
 use tensor_store::SparseVector;
 
@@ -63,6 +63,8 @@ enum Step {
     /// last_included_term = `lit` = term of the last entry; `accepted` = the call returned Ok
     /// (read off the node: a snapshot not newer than the last one is refused)
     InstallSnap { lit: u64, ents: Vec<LEntry>, accepted: bool },
+    /// start_pre_vote() (the node enters the pre-vote phase), then a PreVoteResponse from a peer
+    PreVote { from: u64, t: u64, granted: bool },
 }
 fn le_coq(e: &LEntry) -> String {
     format!("({}, {}, {})", e.0, e.1, e.2)
@@ -80,6 +82,7 @@ impl Step {
             Step::BecomeLeader => "XS BecomeLeader".into(),
             Step::Compact { newbase, .. } => format!("XCompact {newbase}"),
             Step::Propose(h) => format!("XS (Propose {h})"),
+            Step::PreVote { from, t, granted } => format!("XS (PreVote {from} {t} {})", b(*granted)),
             Step::InstallSnap { lit, ents, accepted } => format!("XS (InstallSnap {lit} {} {})", list(ents.iter().map(le_coq)), b(*accepted)),
         }
     }
@@ -169,6 +172,12 @@ fn apply(node: &RaftNode, s: &Step) -> Vec<u64> {
             }
             vec![]
         }
+        Step::PreVote { from, t, granted } => {
+            node.start_pre_vote();
+            let m = Message::PreVoteResponse(PreVoteResponse { term: *t, vote_granted: *granted, voter_id: nid(*from) });
+            node.handle_message(&nid(*from), &m);
+            vec![]
+        }
         Step::InstallSnap { ents, lit, .. } => {
             use sha2::{Digest, Sha256};
             let entries: Vec<LogEntry> = ents.iter().map(|(i, tt, h)| LogEntry::new(*tt, *i, block(*h))).collect();
@@ -220,6 +229,10 @@ impl Table {
                 self.tv(term, Some(*cand));
             }
             Step::VoteResp { t, .. } | Step::AppendResp { t, .. } => self.tv(*t, None),
+            Step::PreVote { t, .. } => {
+                self.tv(*t, None);
+                self.tv(term + 1, Some(0));
+            }
             Step::Append { t, ents, .. } => {
                 self.tv(*t, None);
                 for e in ents {
@@ -525,7 +538,8 @@ fn gen_step(r: &mut Rng, term: u64, log: &[LEntry], role: u64) -> Step {
             }
             Step::Append { t, leader: *r.pick(&[1u64, 2]), prev_i, prev_t, ents, commit: r.below(len + 2) }
         }
-        80..=84 => Step::AppendResp { from: *r.pick(&[1u64, 2]), t: near_term(r) },
+        80..=82 => Step::AppendResp { from: *r.pick(&[1u64, 2]), t: near_term(r) },
+        83..=84 => Step::PreVote { from: *r.pick(&[1u64, 2]), t: near_term(r), granted: r.chance(1, 2) },
         85..=87 => Step::BecomeLeader,
         88..=90 => Step::Compact { back: r.below(2), newbase: 0 },
         91..=95 => {
@@ -678,6 +692,18 @@ fn main() {
         ],
         vec![pick_end(), pick_end(), pick_end()],
     );
+    // the pre-vote phase: a PreVoteResponse of a later term is adopted (and must be logged) -- restart at
+    // once, before any other record carries that term; a granted pre-vote starts the real election
+    run_case(
+        &mut cx,
+        "corpus pre-vote-response-of-a-later-term",
+        vec![
+            vec![Step::PreVote { from: 1, t: 4, granted: false }],
+            vec![Step::ReqVote { t: 3, cand: 2, lli: 0, llt: 0 }, Step::PreVote { from: 2, t: 4, granted: true }, Step::PreVote { from: 1, t: 9, granted: true }],
+            vec![Step::Elect],
+        ],
+        vec![pick_end(), pick_end(), pick_end()],
+    );
     run_case(
         &mut cx,
         "corpus candidate-deposed-by-vote-response",
@@ -712,6 +738,15 @@ fn main() {
                         if *t > term {
                             term = *t;
                             role = 0;
+                        }
+                    }
+                    Step::PreVote { t, granted, .. } => {
+                        if *t > term {
+                            term = *t;
+                            role = 0;
+                        } else if *granted && *t == term {
+                            term += 1;
+                            role = 1;
                         }
                     }
                     Step::Append { t, prev_i, ents, .. } => {
